@@ -145,6 +145,7 @@ def history(job):
     par0 = dataclasses.asdict(par)
     sig0 = frame_sig(frame)
     last_search = None
+    results_undefined = False
     cur_resolved = dict(resolved)
     for i, op in enumerate(ops):
       if op[0] == 'setparam':                 # the user reconfigures the object between calls
@@ -152,7 +153,9 @@ def history(job):
         cur_resolved[op[1]] = op[2]
         par0 = dataclasses.asdict(mm.parameters)
         out['steps'].append({'op': op, 'kind': 'setparam'})
-        last_search = None if last_search is None else last_search
+        # results stored before a reconfiguration hold geo *indices* of the old configuration; what retrieving them
+        # afterwards should give is not something the property speaks about: not compared until the next search
+        results_undefined = last_search is not None
         continue
       got = call(mm, op)
       fresh_mm, _, _, _ = build(inst, {k: v for k, v in cur_resolved.items() if v is not None})
@@ -162,6 +165,10 @@ def history(job):
         want = call(fresh_mm, op)
       if op[0] in ('exhaustive', 'greedy') and got[0] == 'ok':
         last_search = got
+        results_undefined = False
+      if op[0] == 'results' and results_undefined:
+        out['steps'].append({'op': op, 'kind': 'setparam'})     # recorded, not judged
+        continue
       out['steps'].append({'op': op, 'got': got, 'want': want,
                            'params_same': dataclasses.asdict(mm.parameters) == par0 and dataclasses.asdict(par) == par0,
                            'frame_same': frame_sig(frame) == sig0})
